@@ -9,7 +9,7 @@ log = open(os.path.join(VERIF, "work", "mutlog", f"{pid}_{X}.txt")).read()
 suite = re.search(r"suite-with-change:\s*(.*)", log).group(1).strip()
 dwith = re.search(r"demo-with-change:\s*(.*)", log).group(1).strip()
 dwo = re.search(r"demo-without:\s*(.*)", log).group(1).strip()
-confirmed = ("92 passed; 0 failed" in suite) and ("FAILED" in dwith or "failed" in dwith) and (" 0 failed" in dwo and "ok" in dwo)
+confirmed = ("92 passed; 0 failed" in suite) and ("FAILED" in dwith or "failed" in dwith or "panicked" in dwith) and (" 0 failed" in dwo and "ok" in dwo)
 det = {}
 for m in re.finditer(r"^(C\d\d) rc=(\d+) (.*)$", log, re.M):
     det[m.group(1)] = dict(rc=int(m.group(2)), report=m.group(3)[:300])
